@@ -15,6 +15,8 @@ fn x_determinism() {
     let dir = std::path::Path::new(env!("CARGO_MANIFEST_DIR")).join("tests/data");
     let mut corpus: Vec<_> = std::fs::read_dir(dir).unwrap().flatten().map(|e| e.path()).filter(|p| p.extension().map_or(false, |x| x == "aseprite")).collect();
     corpus.sort();
+    // corpus files whose palettes repeat colours first (the palette mapper is an observation too)
+    corpus.sort_by_key(|p| !["palette.aseprite", "indexed.aseprite", "util_indexed.aseprite", "256_color_old_palette_chunk.aseprite"].contains(&p.file_name().and_then(|n| n.to_str()).unwrap_or("")));
     for p in corpus.iter().take(budget(10, 100)) {
         if let Ok(b) = std::fs::read(p) {
             if b.len() < 60_000 {
